@@ -140,6 +140,7 @@ static const char *const dict_ts[] = {
     "[Two-Port Data Order] 21_12", "[Two-Port Data Order] 12_21",
     "[Two-Port Order] 21_12", "[Version] 2.0", "[Version] 1.0",
     "[Version] 2.1", "[Number of Frequencies] 0", "[Number of Frequencies] 3",
+    "[Number of Frequencies] -1", "[Number of Frequencies] -7",
     "[Number of Frequencies] 100000", "[Number of Frequencies] 99999999999", "[Number of Noise Frequencies] 2",
     "[Mixed-Mode Order] D2,3 D6,5 C2,3 C6,5 S4 S1", "[Begin Information]",
     "[End Information]", "[Unknown Keyword] 7", "[", "]", "[]",
@@ -163,7 +164,7 @@ static const char *const dict_cal[] = {
     "frequencies: 0", "frequencies: 100000", "frequencies: 99999999999",
     "frequencies: -1",
     "type: X9", "type: E12", "type: T16", "type: [T8]", "data: 5",
-    "data: []", "data: {}", "- 3", "- f: 1", "ts: x", "ts: [1, 2]", "e: []",
+    "data: []", "data: {}", "- 3", "- [1, 2]", "- x", "- 3", "- f: 1", "ts: x", "ts: [1, 2]", "e: []",
     "el: ~", "z0: j", "z0: 1 2 3", "z0: +j", "name: [a]", "name: ~",
     "#VNACal 2.0", "#VNACAL 2.0", "#VNACal 1.0", "? [a, b] : c",
     "properties: [x]", "properties: {a..b: 1}", "properties: {'': 1}",
